@@ -1,13 +1,18 @@
 #!/bin/sh
 # usage: build.sh <cfg letter> <outdir>   — builds the harness against /repo's working tree
 set -e
-CFG="$1"; OUT="$2"; REPO="${VERIF_REPO:-/repo}"
+CFG="$1"; OUT="$2"; LIBSTD=""; REPO="${VERIF_REPO:-/repo}"
 HERE="$(cd "$(dirname "$0")" && pwd)"
 case "$CFG" in
   A) FL="" ;;
   B) FL="-DUSE_MEMORY_ALLOCATION_FREE=0" ;;
   C) FL="-DUSE_DEVICE_DEPENDENT_ERROR_INFORMATION=0" ;;
   D) FL="-DUSE_CUSTOM_DTOSTRE=1" ;;
+  # E: the library sources in strict ISO C99 (no _POSIX_C_SOURCE): cc.h then selects the library's own fall-backs
+  #    OUR_strncasecmp / BSD_strnlen / OUR_strndup instead of the libc functions (the harness itself is compiled as usual)
+  E) FL=""; LIBSTD="-std=c99" ;;
+  # F: everything as GNU C89: no <stdbool.h>, types.h declares `typedef unsigned char bool` (scpi_bool_t is an 8-bit integer)
+  F) FL="-std=gnu89" ;;
   *) echo "bad cfg"; exit 2 ;;
 esac
 mkdir -p "$OUT"
@@ -17,8 +22,9 @@ pids=""
 for f in $REPO/libscpi/src/*.c $HERE/h_*.c; do
   o="$OUT/$(basename "$f" .c).o"
   EXTRA=""
+  case "$f" in */libscpi/src/*) EXTRA="$LIBSTD" ;; esac
   # utils.c: file-local functions (scpi_ecvt …) are made visible to the harness; nothing else changes
-  case "$f" in */libscpi/src/utils.c) EXTRA="-Dstatic=" ;; esac
+  case "$f" in */libscpi/src/utils.c) EXTRA="$EXTRA -Dstatic=" ;; esac
   ( gcc $CF $EXTRA -w -c "$f" -o "$o" ) &
   pids="$pids $!"
 done
